@@ -7,7 +7,7 @@ from onl.sim import Environment
 PROPERTY = "C05"
 CLAUSES = ["C05.when", "C05.value", "C05.fail", "C05.late", "C05.env", "C05.once"]
 RULE = ("every condition tree (root AllOf/AnyOf with 0-3 operands, &, |; operands are leaves or nested conditions to depth "
-        "2/3, <= 3/4 leaves in total) over leaves {fresh timeout(0|1|2), shared event succeeded/failed by a helper at instant "
+        "2/3, <= 3/4 leaves in total; binary roots also with exception objects as the values of successful operands) over leaves {fresh timeout(0|1|2), shared event succeeded/failed by a helper at instant "
         "0|1|2, child process returning/raising at instant 0|1 (so operands may already be processed, also as failures handled by a catcher, when the condition is built)}, built at instant 0|1 by a waiter created before or after "
         "the helpers, with or without an independent catcher on failing leaves, waiter catching or not; non-trivial = an "
         "operand was processed in the root's trigger instant besides the triggering one, or an operand failed; distinct = "
@@ -50,6 +50,10 @@ def plan(tier, seed):
     for ri in (8, 9):
         for c in (0, 1):
             cfgs.append(dict(root=ri, c=c, order=0, depth=1, maxleaves=3, foreign=0, dup=1, small=1))
+    # successful operands whose value is an exception object (timeout value, succeed(exc), process return value)
+    for ri in (4, 5, 6, 7):
+        for c in (0, 1):
+            cfgs.append(dict(root=ri, c=c, order=0, depth=2, maxleaves=3, foreign=0, small=1, excvals=1))
     cfgs.append(dict(root=5, c=0, order=0, depth=1, maxleaves=2, foreign=2))
     cfgs.append(dict(root=4, c=0, order=0, depth=1, maxleaves=2, foreign=2))
     cfgs.append(dict(root=4, c=0, order=0, depth=1, maxleaves=2, foreign=1))
@@ -173,6 +177,9 @@ def execute(ch, cfg):
         for i, n in enumerate(leaves):
             n.val = ("v", i)
             n.ok = n.spec[0] == "T" or bool(n.spec[2])
+            if cfg.get("excvals") and n.ok:
+                # an exception OBJECT as the value of a successful operand (a result handed on, not raised): still a success
+                n.val = Err(("v", i))
             n.processed_at = None
             n.caught = False
             if n.alias is not None:
